@@ -166,3 +166,122 @@ func verifV1CLICheck(a, b JsonNode, fi int) string {
 	}
 	return ""
 }
+
+// verifV1CLITranslate (C14): with -v2=false, jd -t X2Y prints exactly what the v1 library renders for
+// the translation, from a file, from stdin and with -o; an input the library refuses gives exit 2.
+// mode 0: json2yaml / yaml2json of a; 1: jd2patch / patch2jd of a.Diff(b); 2: jd2merge / merge2jd of
+// a.Diff(b, MERGE). The comparison is on bytes, so it also demands that the translation is a function
+// of its input (the process under test and this one see different map iteration orders).
+func verifV1CLITranslate(a, b JsonNode, mode int) string {
+	bin := os.Getenv("VERIF_JDTOP_BIN")
+	if bin == "" {
+		return "binary not built"
+	}
+	dir, err := os.MkdirTemp("", "verifcli")
+	if err != nil {
+		return err.Error()
+	}
+	defer os.RemoveAll(dir)
+	type job struct {
+		kind, in, want string
+		wantErr        bool
+	}
+	var jobs []job
+	lib := func(kind, in string) (string, bool) {
+		switch kind {
+		case "json2yaml":
+			n, err := ReadJsonString(in)
+			if err != nil {
+				return "", true
+			}
+			return n.Yaml(), false
+		case "yaml2json":
+			n, err := ReadYamlString(in)
+			if err != nil {
+				return "", true
+			}
+			return n.Json(), false
+		case "jd2patch":
+			d, err := ReadDiffString(in)
+			if err != nil {
+				return "", true
+			}
+			s, err := d.RenderPatch()
+			return s, err != nil
+		case "patch2jd":
+			d, err := ReadPatchString(in)
+			if err != nil {
+				return "", true
+			}
+			return d.Render(), false
+		case "jd2merge":
+			d, err := ReadDiffString(in)
+			if err != nil {
+				return "", true
+			}
+			s, err := d.RenderMerge()
+			return s, err != nil
+		case "merge2jd":
+			d, err := ReadMergeString(in)
+			if err != nil {
+				return "", true
+			}
+			return d.Render(), false
+		}
+		return "", true
+	}
+	add := func(kind, in string) {
+		w, e := lib(kind, in)
+		jobs = append(jobs, job{kind, in, w, e})
+	}
+	switch mode % 3 {
+	case 0:
+		if isVoidV1(a) {
+			return ""
+		}
+		add("json2yaml", a.Json())
+		add("yaml2json", a.Yaml())
+	case 1:
+		add("jd2patch", a.Diff(b).Render())
+		if p, err := a.Diff(b).RenderPatch(); err == nil {
+			add("patch2jd", p)
+		}
+	case 2:
+		if !verifNullFree(a) || !verifNullFree(b) {
+			return ""
+		}
+		add("jd2merge", a.Diff(b, MERGE).Render())
+		if m, err := a.Diff(b, MERGE).RenderMerge(); err == nil {
+			add("merge2jd", m)
+		}
+	}
+	for _, j := range jobs {
+		if j.in == "" {
+			continue
+		}
+		f := filepath.Join(dir, "in")
+		os.WriteFile(f, []byte(j.in), 0o644)
+		r := verifExec(bin, "", "-v2=false", "-t", j.kind, f)
+		if j.wantErr {
+			if r.exit != 2 || strings.Contains(r.stderr, "goroutine") {
+				return fmt.Sprintf("-v2=false -t %s: the library refuses %q but the binary exits %d", j.kind, j.in, r.exit)
+			}
+			continue
+		}
+		if r.exit != 0 || r.stdout != j.want {
+			return fmt.Sprintf("-v2=false -t %s on %q: exit %d stdout %q, library %q", j.kind, j.in, r.exit, r.stdout, j.want)
+		}
+		rs := verifExec(bin, j.in, "-v2=false", "-t", j.kind)
+		if rs.exit != 0 || rs.stdout != j.want {
+			return fmt.Sprintf("-v2=false -t %s from stdin: exit %d stdout %q, library %q", j.kind, rs.exit, rs.stdout, j.want)
+		}
+		fo := filepath.Join(dir, "o")
+		os.Remove(fo)
+		ro := verifExec(bin, "", "-v2=false", "-o", fo, "-t", j.kind, f)
+		got, _ := os.ReadFile(fo)
+		if ro.exit != 0 || ro.stdout != "" || string(got) != j.want {
+			return fmt.Sprintf("-v2=false -t %s -o: exit %d stdout %q file %q, library %q", j.kind, ro.exit, ro.stdout, got, j.want)
+		}
+	}
+	return ""
+}
